@@ -3,6 +3,24 @@
 
 #include <ufw/sx.h>
 
+/* Allocation ledger.  The harness is compiled with -Dmalloc=hx_malloc -Dcalloc=hx_calloc -Dfree=hx_free (see
+ * vf.HARNESS_FLAGS), so that every allocation and release of src/sx.c passes through the counters below while
+ * `hx_on` is set.  C20: "no allocation leaked". */
+#undef malloc
+#undef calloc
+#undef free
+extern void *malloc(size_t);
+extern void *calloc(size_t, size_t);
+extern void free(void *);
+static size_t hx_allocs, hx_frees;
+static bool hx_on;
+void *hx_malloc(size_t n) { if (hx_on) hx_allocs++; return malloc(n); }
+void *hx_calloc(size_t a, size_t b) { if (hx_on) hx_allocs++; return calloc(a, b); }
+void hx_free(void *p) { if (hx_on && p) hx_frees++; free(p); }
+#define malloc hx_malloc
+#define calloc hx_calloc
+#define free hx_free
+
 static const char *
 status_name(enum sx_status s)
 {
@@ -51,16 +69,23 @@ harness_op(int argc, char **argv)
         size_t n;
         unsigned char *s = parse_hex(argv[1], &n);        /* exact-size heap block, no terminator */
         if (!s) { printf("bad-op"); return; }
+        hx_allocs = hx_frees = 0; hx_on = true;
         struct sx_parse_result r = sx_parse((const char *)s, n, 0);
+        hx_on = false;
+        size_t made = hx_allocs, released = hx_frees;
         char *out = NULL; size_t ol = 0;
         FILE *f = open_memstream(&out, &ol);
         fprintf(f, "%s tree=", status_name(r.status));
         if (r.node) show_tree(f, r.node); else fprintf(f, "-");
         if (r.status == SXS_SUCCESS) fprintf(f, " pos=%zu", r.position);
         fclose(f);
-        if (argc == 3) printf("%s ## %s", out, out); else printf("%s", out);
-        free(out);
+        hx_frees = 0; hx_on = true;
         sx_destroy(&r.node);
+        hx_on = false;
+        /* allocations made by the reader / released before it returned / released by destroying what it returned */
+        if (argc == 3) printf("%s heap=%zu/%zu/%zu ## %s heap=%zu/%zu/%zu", out, made, released, hx_frees, out, made, released, hx_frees);
+        else printf("%s heap=%zu/%zu/%zu", out, made, released, hx_frees);
+        free(out);
         free(s);
     } else if (strcmp(argv[0], "sx.deep") == 0 && argc == 3) {
         /* nesting depth n: "open" = n opening parentheses and nothing else (no complete expression),
